@@ -123,17 +123,28 @@ func ruleSelectLogsWindow(r *Run) {
 			}
 			seen++
 			st := e.State
-			var sym func(v ssa.Value, depth int) affine
-			sym = func(v ssa.Value, depth int) affine {
-				if depth > 8 || v == nil {
+			var symEnv func(v ssa.Value, depth int, env map[*ssa.Parameter]affine) affine
+			sym := func(v ssa.Value, depth int) affine { return symEnv(v, depth, nil) }
+			symEnv = func(v ssa.Value, depth int, env map[*ssa.Parameter]affine) affine {
+				if depth > 12 || v == nil {
 					return affine{}
 				}
 				v = stripTypeOnly(v)
+				if q, ok := v.(*ssa.Parameter); ok && env != nil {
+					if a, ok := env[q]; ok {
+						return a
+					}
+				}
 				if bv, ok := st.bind[v]; ok && bv.V != nil && bv.V != v {
-					return sym(bv.V, depth+1)
+					return symEnv(bv.V, depth+1, env)
 				}
 				switch x := v.(type) {
-				case *ssa.Parameter:
+				case *ssa.Const:
+					if x.Value != nil && constant.Sign(x.Value) == 0 {
+						return affine{Coeff: map[string]int{}, OK: true}
+					}
+				case *ssa.Convert:
+					return symEnv(x.X, depth+1, env)
 				case *ssa.Field:
 					if x.X == ssa.Value(prm) {
 						if n, _, ok := fieldNameOf(x); ok && (n == "Start" || n == "End") {
@@ -161,7 +172,7 @@ func ruleSelectLogsWindow(r *Run) {
 							}
 						}
 						if last != nil {
-							return sym(last.Val.V, depth+1)
+							return symEnv(last.Val.V, depth+1, env)
 						}
 						if f == "Start" || f == "End" {
 							return affine{Base: f, Coeff: map[string]int{}, OK: true}
@@ -174,26 +185,45 @@ func ruleSelectLogsWindow(r *Run) {
 					// a local that holds a copy
 					if al, ok := x.X.(*ssa.Alloc); ok {
 						if mv, ok := st.loads[x]; ok && mv.V != nil && mv.V != v {
-							return sym(mv.V, depth+1)
+							return symEnv(mv.V, depth+1, env)
 						}
 						if sts := storesTo(al); len(sts) == 1 {
-							return sym(sts[0].Val, depth+1)
+							return symEnv(sts[0].Val, depth+1, env)
 						}
 					}
 				case *ssa.Call:
 					callee := staticCallee(x)
-					if callee != nil && callee.Blocks != nil && len(callee.Blocks) <= 6 && pkgOfFunc(callee) == pkgOfFunc(fn) && callee.Signature.Results().Len() == 1 {
-						env := map[*ssa.Parameter]affine{}
+					if callee == nil {
+						break
+					}
+					if callIs(x, "time", "(Time).Add") && len(x.Call.Args) == 2 {
+						t, d := symEnv(x.Call.Args[0], depth+1, env), symEnv(x.Call.Args[1], depth+1, env)
+						if !t.OK || !d.OK || d.Base != "" {
+							return affine{}
+						}
+						out := affine{Base: t.Base, Coeff: map[string]int{}, OK: true}
+						for k, c := range t.Coeff {
+							out.Coeff[k] += c
+						}
+						for k, c := range d.Coeff {
+							out.Coeff[k] += c
+						}
+						return out
+					}
+					if len(x.Call.Args) == 1 && (cname(callee) == "AsTime" || cname(callee) == "NewTimestampFromTime") {
+						return symEnv(x.Call.Args[0], depth+1, env)
+					}
+					if callee.Blocks != nil && len(callee.Blocks) <= 6 && isFirstParty(pkgPathOf(callee)) && callee.Signature.Results().Len() == 1 {
+						env2 := map[*ssa.Parameter]affine{}
 						for i, q := range callee.Params {
 							if i < len(x.Call.Args) {
-								if a := sym(x.Call.Args[i], depth+1); a.OK {
-									env[q] = a
+								if a := symEnv(x.Call.Args[i], depth+1, env); a.OK {
+									env2[q] = a
 								}
 							}
 						}
-						rets := returnsOf(callee)
-						if len(rets) == 1 {
-							return afEvalEnv(rets[0].Results[0], func(ssa.Value) (string, bool) { return "", false }, 0, env)
+						if rets := returnsOf(callee); len(rets) == 1 {
+							return symEnv(rets[0].Results[0], depth+1, env2)
 						}
 					}
 				}
